@@ -3,6 +3,7 @@ import Splipy.Lemmas.C07Append
 import Splipy.Lemmas.C07Periodic
 import Splipy.Lemmas.C07Subdivide
 import Splipy.Lemmas.C07SplitPer
+import Splipy.Lemmas.C07Mult
 import Mathlib.Data.Rat.Floor
 import Mathlib.Tactic.NormNum
 import Mathlib.Tactic.IntervalCases
@@ -85,22 +86,25 @@ Proof: the insertion loop is a `PerRefines` sequence (C04), `Basis.roll` / `Tens
 produce the shifted periodic sequences `ext (μ+·)`, `(·+μ) % n` (`Lemmas/C07Roll.lean`), and
 `splineVal_open_periodic` cuts one period out of the periodic family.
 
-`_partial`: `hMult` — after the insertion loop of the MODEL the split value has multiplicity `≥ p`
-at `bisect_left` (what inserting `continuity + 1` copies establishes when the tolerance comparison
-in `continuity` is exact) — is a decidable condition on the model's intermediate result, kept as a
-hypothesis (checked by kernel evaluation in the example below); the guard excludes `n < p + k`
-(where the pinned code is wrong) and split values outside the base period (where the pinned code
-uses the un-wrapped value in `bisect_left`).  Later split values: the result is an open object, see
+The multiplicity `≥ p` of the split value after the insertion loop (needed for the cut) is PROVED
+(`Lemmas/C07Mult.lean`: every periodic insertion raises `bisect_right - bisect_left` of the inserted
+value by one; `continuity` reports `p - mult - 1` when the tolerance comparisons are exact).
+
+`_partial`: the guard `n ≥ p + k` (below it the pinned code is wrong), split values of the base period
+only (outside it the pinned code uses the un-wrapped value in `bisect_left`), and `hexR`/`hexL`: no
+knot other than copies of `x0` lies within the tolerance of `x0` (the tolerance comparison of
+`continuity` is exact).  Later split values: the result is an open object, see
 `C07_split_periodic_pieces`. -/
 theorem C07_split_periodic_partial [FloorRing K] (o : Obj K) (dir : ℕ) (hdir : dir < o.bases.size)
     (hax : dir < o.cps.shape.length) (hv : (o.basis dir).Valid) (k : ℕ)
     (hk : (o.basis dir).periodic = (k : Int))
     (hguard : (o.basis dir).order + k ≤ (o.basis dir).numFunctions)
-    (hshape : o.cps.shape.getD dir 0 = (o.basis dir).numFunctions) (tol x0 : K)
+    (hshape : o.cps.shape.getD dir 0 = (o.basis dir).numFunctions) {tol x0 : K} (htol : 0 < tol)
     (hx : (o.basis dir).start ≤ x0 ∧ x0 < (o.basis dir).stop)
-    (hMult : ∀ so, o.splitInsert tol [x0] dir = .ok so →
-      (so.basis dir).kn ((so.basis dir).bisectL x0) = x0 ∧
-      (so.basis dir).kn ((so.basis dir).bisectL x0 + (o.basis dir).order - 1) = x0) :
+    (hexR : ∀ i, i < (o.basis dir).knots.size →
+      (o.basis dir).kn i ≤ x0 ∨ x0 + tol ≤ (o.basis dir).kn i)
+    (hexL : ∀ i, i < (o.basis dir).knots.size →
+      (o.basis dir).kn i < x0 - tol ∨ x0 ≤ (o.basis dir).kn i) :
     ∃ op m, o.split tol [x0] dir = .ok (.single op) ∧
       (op.basis dir).Valid ∧ (op.basis dir).periodic = -1 ∧
       (op.basis dir).order = (o.basis dir).order ∧
@@ -122,7 +126,8 @@ theorem C07_split_periodic_partial [FloorRing K] (o : Obj K) (dir : ℕ) (hdir :
             = C04.wsum s (o.basis dir).kn ((o.basis dir).order - 1) (o.basis dir).nAll
                 (o.basis dir).numFunctions (C04.fibre o dir a i) 0
                 (t - ((o.basis dir).stop - (o.basis dir).start))) :=
-  split_periodic_single o dir hdir hax hv k hk hguard hshape tol x0 hx hMult
+  split_periodic_single o dir hdir hax hv k hk hguard hshape tol x0 hx
+    (hMult_of_exact o dir hdir hv k hk hguard hshape htol hx hexR hexL)
 
 /-- **Later split values of a periodic direction.**  The object `op` opened at the first split
 value is an ordinary open object; the remaining values are split by the non-periodic branch, i.e.
@@ -267,8 +272,8 @@ def C07_exPer : Obj ℚ :=
   { bases := #[⟨3, #[-1, 0, 0, 1, 2, 3, 3, 4], 0⟩],
     cps := { shape := [4, 2], data := #[0, 0, 1, 2, 3, 1, 2, -1] }, rational := false }
 
-/-- `hMult` holds for the split value `1/2` (between knots: three copies are inserted), checked by
-kernel evaluation of the model's insertion loop. -/
+/-- The multiplicity condition for the split value `1/2` (between knots: three copies are inserted),
+re-checked by kernel evaluation of the model's insertion loop. -/
 theorem C07_exPer_hMult : ∀ so, C07_exPer.splitInsert (1 / 10 ^ 10) [1/2] 0 = .ok so →
     (so.basis 0).kn ((so.basis 0).bisectL (1/2)) = 1/2 ∧
     (so.basis 0).kn ((so.basis 0).bisectL (1/2) + (C07_exPer.basis 0).order - 1) = 1/2 := by
@@ -287,3 +292,18 @@ theorem C07_exPer_split :
       | _ => ([], 0, []))
     = ([1/2, 1/2, 1/2, 1, 2, 3, 3, 7/2, 7/2, 7/2], -1, [7, 2]) := by
   decide +kernel
+
+/-- The exactness hypotheses `hexR`, `hexL` of `C07_split_periodic_partial` for `x0 = 1/2`,
+`tol = 10⁻¹⁰` on `C07_exPer` (and the guard `3 + 0 ≤ 4`). -/
+example : (C07_exPer.basis 0).order + 0 ≤ (C07_exPer.basis 0).numFunctions ∧
+    (∀ i, i < (C07_exPer.basis 0).knots.size →
+      (C07_exPer.basis 0).kn i ≤ 1/2 ∨ (1/2 : ℚ) + 1 / 10 ^ 10 ≤ (C07_exPer.basis 0).kn i) ∧
+    (∀ i, i < (C07_exPer.basis 0).knots.size →
+      (C07_exPer.basis 0).kn i < 1/2 - 1 / 10 ^ 10 ∨ (1/2 : ℚ) ≤ (C07_exPer.basis 0).kn i) := by
+  refine ⟨by decide, ?_, ?_⟩
+  · intro i hi
+    have hi' : i < 8 := hi
+    interval_cases i <;> norm_num [Obj.basis, C07_exPer, Basis.kn]
+  · intro i hi
+    have hi' : i < 8 := hi
+    interval_cases i <;> norm_num [Obj.basis, C07_exPer, Basis.kn]
